@@ -129,6 +129,9 @@ def run(ctx):
         if big:
             n = rng.randint(170, 230)
         force_share, force_edge0, force_feed = fi % 7 == 2, fi % 7 == 4, fi % 7 in (5, 6)
+        force_nope = fi % 7 == 1          # the shortest record there is (a version-1 NOPE indication) in front of others
+        if force_nope and not big:
+            n = max(n, 3)
         if force_share:
             n = max(n, 3)
         if force_feed and not big:
@@ -144,6 +147,8 @@ def run(ctx):
                     continue                    # 453 octets per record: 170+ records exceed 64 KiB
                 if force_share and not big and not (d["cls"] == "rx" and len(d["burst"]["bits"]) == 148):
                     continue                    # several messages of one class and burst length: one buffer refilled
+                if force_nope and not big and k == 0 and not (d["cls"] == "rx" and d["ver"] == 1 and d.get("nope")):
+                    continue
                 if force_edge0 and not big and k == 0 and not (d["cls"] == "rx" and d["ver"] == 0 and len(d["burst"]["bits"]) == 444):
                     continue                    # a version-0 message whose modulation is only implied by the burst length
                 if small and d["burst"]["has"] and len(d["burst"]["bits"]) > 148 and rng.random() < 0.85 and not (force_edge0 and k == 0):
